@@ -15,7 +15,7 @@ use std::sync::{Arc, OnceLock};
 
 pub const POOL_SIZES: [usize; 6] = [1, 2, 3, 4, 8, 16];
 
-fn pools() -> &'static Vec<rayon::ThreadPool> {
+pub fn pools() -> &'static Vec<rayon::ThreadPool> {
     static P: OnceLock<Vec<rayon::ThreadPool>> = OnceLock::new();
     P.get_or_init(|| {
         POOL_SIZES
@@ -243,7 +243,8 @@ fn vm_sched_case() -> impl Strategy<Value = VmSchedCase> {
                 block.insert(2 + i, op);
             }
         }
-        let mut v = vec![PUSH(48), ALOC, POP];
+        // a few parent words that the children inherit (and may overwrite in their own copies)
+        let mut v = vec![PUSH(48), ALOC, POP, PUSH(11), PUSH(22), PUSH(33)];
         v.extend(block);
         v
     });
